@@ -90,14 +90,34 @@ Print Assumptions C02_not_early.
    exactly when due: not early (created when occupied_till <= now; nothing else in its batch touches that machine or
    moves its job), not late (clock invariant), and that a busy machine's PROCESSING record ends at the machine's
    occupied_till - so OUTAGE starts at start + d and adds exactly the outage time, and completion does not move the end. *)
+Theorem C02_durations_reachable_every_instance :
+  forall (sigma : oracle) (i : inst) (fuel : nat) (x0 : state) (joker0 : Z) (ta : bool) (r : result) (m : mw),
+    inst_nonneg_b i = true ->
+    clock_b x0 = true -> wfs_b i x0 = true -> fresh2_b i x0 = true -> nodep_b x0 = true ->
+    reach sigma i fuel x0 joker0 ta r m -> durations_b i (r_x r) = true.
+Proof. intros sigma i fuel x0 joker0 ta r m Hnn. apply run_durations; auto. Qed.
+Print Assumptions C02_durations_reachable_every_instance.
+
+(* the same for the instance class of the earlier rounds (corollary) *)
 Theorem C02_durations_reachable_flex :
   forall (sigma : oracle) (i : inst) (fuel : nat) (x0 : state) (joker0 : Z) (ta : bool) (r : result) (m : mw),
     inst_nonneg_b i = true -> flex_post_b i = true ->
     clock_b x0 = true -> wfs_b i x0 = true -> fresh2_b i x0 = true -> nodep_b x0 = true ->
     reach sigma i fuel x0 joker0 ta r m -> durations_b i (r_x r) = true.
-Proof. intros sigma i fuel x0 joker0 ta r m Hnn Hf. apply flex_durations; auto. Qed.
+Proof. intros. eapply C02_durations_reachable_every_instance; eauto. Qed.
 Print Assumptions C02_durations_reachable_flex.
 
+Theorem C02_durations_micro_states_every_instance :
+  forall (sigma : oracle) (i : inst) (fuel : nat) (x0 : state) (joker0 : Z) (ta : bool) (r : result) (m : mw)
+         (a : Z) (r' : result) (m' : mw) (lg : mlog),
+    inst_nonneg_b i = true ->
+    clock_b x0 = true -> wfs_b i x0 = true -> fresh2_b i x0 = true -> nodep_b x0 = true ->
+    reach sigma i fuel x0 joker0 ta r m -> mw_step sigma i fuel r m a = MOk r' m' lg ->
+    forall tr y, In (tr, y) lg -> durations_b i y = true.
+Proof. intros sigma i fuel x0 joker0 ta r m a r' m' lg Hnn. apply run_micro_durations; auto. Qed.
+Print Assumptions C02_durations_micro_states_every_instance.
+
+(* the same for the instance class of the earlier rounds (corollary) *)
 Theorem C02_durations_micro_states_flex :
   forall (sigma : oracle) (i : inst) (fuel : nat) (x0 : state) (joker0 : Z) (ta : bool) (r : result) (m : mw)
          (a : Z) (r' : result) (m' : mw) (lg : mlog),
@@ -105,7 +125,7 @@ Theorem C02_durations_micro_states_flex :
     clock_b x0 = true -> wfs_b i x0 = true -> fresh2_b i x0 = true -> nodep_b x0 = true ->
     reach sigma i fuel x0 joker0 ta r m -> mw_step sigma i fuel r m a = MOk r' m' lg ->
     forall tr y, In (tr, y) lg -> durations_b i y = true.
-Proof. intros sigma i fuel x0 joker0 ta r m a r' m' lg Hnn Hf. apply flex_micro_durations; auto. Qed.
+Proof. intros. eapply C02_durations_micro_states_every_instance; eauto. Qed.
 Print Assumptions C02_durations_micro_states_flex.
 
 (* non-vacuity: the clause speaks about something - a run of a compiled instance (AGV, outages, deterministic
